@@ -9,7 +9,7 @@ for host, fmtname, flags in (("le", "SCPI_FORMAT_LITTLEENDIAN", []), ("be", "SCP
             JOBS.append(dict(name="arrp.produceResultArrayBinary.%s.s%d.%s" % (host, sz, part), props=["C17", "C06", "C01"], kind="P", harness="h_arrp.c", entry="h_produceResultArrayBinary",
                 enforce="produceResultArrayBinary", contracts=["array.h"], defines=["HOST_FORMAT=" + fmtname, "ARR_FIX=%d" % sz] + defs, loops=True, cc_flags=flags,
                 replace=["SCPI_ResultArbitraryBlock", "SCPI_ResultArbitraryBlockHeader", "SCPI_ResultArbitraryBlockData", "SCPI_ErrorPush"],
-                need_classes=["loop_invariant", "loop_decreases"], timeout=2400, cost=40, mem_gb=19,
+                need_classes=["loop_invariant", "loop_decreases"], timeout=2400, cost=40, mem_gb=19, est_gb=5,
                 dead_loops=["produceResultArrayBinary:%d" % k for k, lsz in ((1, 2), (2, 4), (3, 8)) if lsz != sz],
                 bound="element count up to 10^8, block below 10^9 bytes (the header formatter's limit); error queue capacity symbolic",
                 what=("element size %d, %s host model, every count and both formats: " % (sz, host) if sz else "element sizes other than 1/2/4/8: -310, nothing written; ") +
@@ -18,6 +18,6 @@ for host, fmtname, flags in (("le", "SCPI_FORMAT_LITTLEENDIAN", []), ("be", "SCP
 for bad in (0, 3, 5, 6, 7, 9, 10, 11, 12, 13, 14, 15, 16):
     JOBS.append(dict(name="arrp.produceResultArrayBinary.le.bad%d" % bad, props=["C17", "C01"], kind="P", harness="h_arrp.c", entry="h_produceResultArrayBinary",
         enforce="produceResultArrayBinary", contracts=["array.h"], defines=["HOST_FORMAT=SCPI_FORMAT_LITTLEENDIAN", "ARR_FIX=0", "ARR_BAD=%d" % bad, "ARR_NOWATCH"], loops=True,
-        replace=["SCPI_ResultArbitraryBlock", "SCPI_ResultArbitraryBlockHeader", "SCPI_ResultArbitraryBlockData", "SCPI_ErrorPush"], timeout=1200, cost=10, mem_gb=19, dead_loops=["*"],
+        replace=["SCPI_ResultArbitraryBlock", "SCPI_ResultArbitraryBlockHeader", "SCPI_ResultArbitraryBlockData", "SCPI_ErrorPush"], timeout=1200, cost=10, mem_gb=19, est_gb=3, dead_loops=["*"],
         bound="element size fixed to %d (one job per size 0..16 other than 1/2/4/8); count and format symbolic" % bad,
         what="an element size the format does not know: -310 queued, nothing written, no item counted"))
